@@ -127,7 +127,13 @@ static void item_fn(void *ctxt)
 	for (int k = 0; k < 4; k++) if (it->payload[k] != it->id * 7 + k) oracle_fail("C05", "submitter's writes not visible in item", it->id, k);
 	if (it->eb) { g_chain++; }
 	switch (it->body) {
-	case B_SPIN: { volatile int x = 0; int n = (int)(vrt_rand() % 2000); for (int i = 0; i < n; i++) x++; break; }
+	case B_SPIN: {
+		volatile int x = 0; int n = (int)(vrt_rand() % 2000); for (int i = 0; i < n; i++) x++;
+		/* on a concurrent queue some readers stay inside their body long enough for suspensions, resumes and barriers
+		 * of other threads to happen meanwhile (seeds C04-2, C04-5) */
+		if (g_W != 1 && !it->eb && (vrt_rand() % 3) == 0) usleep(60 + (unsigned)(vrt_rand() % 400));
+		break;
+	}
 	case B_OWNSUSP: {
 		dispatch_suspend(g_q);
 		int w = atomic_fetch_add(&g_nwin, 1);
@@ -246,6 +252,24 @@ static void *client(void *arg)
 				continue;
 			}
 			if (g_susp == 2 && vrt_rand() % 100 < 40) { susp_pair(storm_depth()); continue; }
+			/* concurrent queue: suspend, queue a barrier behind whatever readers are in flight, resume while they still
+			 * run (dispatch_resume's own lock-transfer path; seed C04-2) */
+			if (g_susp && g_W != 1 && !g_exec_inactive && vrt_rand() % 100 < 4) {
+				int w = atomic_fetch_add(&g_nwin, 1);
+				vrt_api("SuspCall", g_obj, -1, w, 0);
+				dispatch_suspend(g_q);
+				uint64_t s1 = vrt_api("SuspRet", g_obj, -1, w, 0);
+				if (w < MAXW) { g_win[w].own = 0; g_win[w].s1 = s1; g_win[w].s2 = 0; }
+				it = new_item(K_BASYNC, (int)me, B_NONE);
+				if (it) submit(it);
+				usleep((unsigned)(vrt_rand() % 200));
+				uint64_t s2 = vrt_api("ResCall", g_obj, -1, w, 0);
+				if (w < MAXW) g_win[w].s2 = s2;
+				dispatch_resume(g_q);
+				vrt_api("ResRet", g_obj, -1, w, 0);
+				if (!it) break;
+				continue;
+			}
 			if (vrt_rand() % 100 < 7) { it = new_item(K_AFTER, (int)me, body); if (!it) break; submit(it); continue; }
 			if (g_W == 1) {
 				if (k < 26) it = new_item(K_ASYNC, (int)me, body);
